@@ -104,3 +104,30 @@ claim("C05",
       note="Boundary points are UNCLEAR and never asserted. Spheropolyhedra with positive radius: see evidence notes.",
       technique="TLA+ model checking (TLC) of exact shape x point state spaces + spec-to-code replay",
       design_ref="DESIGN.md 5 C05")
+
+
+claim("C03",
+      text="spec/ShapeMachine.tla models the shape object as a state machine (abstract similarity factor, centroid mode, "
+           "rotation flag, chirality, rounding radius, face-structure version, memoised-edge flag, and a stamp algebra of "
+           "stored fields that each operation dirties/refreshes) with one action per public mutating call; TLC explores the "
+           "complete state graph per class/base and checks Coherent, NoMirror, FailAtomic, SetterSimilar, BadTargetRefused, "
+           "QueryPure; every transition becomes one implementation history (shortest path + transition) executed on the "
+           "real object, whose full public projection (by reflection, incl. cached properties) is compared after each step "
+           "with a freshly constructed shape and with the spec's predictions (exception class, exact similarity, chirality).",
+      note="The coherence oracle is the implementation's own constructor on the current vertices (which C01/C02/C04 bind to "
+           "exact values). The graph is finite through bounded scale numerators; longer histories rely on the abstraction. "
+           "miniball-based members are compared under a fixed seed.",
+      technique="TLA+ state-machine model checking (TLC) + one implementation test per transition of the state graph",
+      design_ref="DESIGN.md 5 C03, 3.4")
+
+claim("C08",
+      text="The setter actions of spec/ShapeMachine.tla (every size-like member of all ten classes with its homogeneity degree, "
+           "unsupported members, members needing a circum-/in-ball, bad targets 0 / negative / nan, centroid and center, "
+           "rounding radius, single semi-axes) are explored exhaustively by TLC with SetterSimilar, BadTargetRefused and "
+           "FailAtomic as action properties; each transition is executed on the real object: read-back equals the target, "
+           "all defining coordinates scale by exactly lambda, dimensionless descriptors are unchanged, refused calls raise "
+           "the predicted exception and leave the stored state bit-identical.",
+      note="Targets outside the lambda alphabet (1e-1..1e1 in the thorough tier) are not tried; settable members found by "
+           "reflection are listed in the evidence.",
+      technique="TLA+ state-machine model checking (TLC) + one implementation test per transition of the state graph",
+      design_ref="DESIGN.md 5 C08")
